@@ -247,6 +247,7 @@ func c09Run(s *Shard) {
 	s.Bounds["pair_corpus"] = len(pairCorpus)
 	base := make([]string, len(pairCorpus))
 	for i, r := range pairCorpus {
+		s.Begin(&Case{Prop: "C09", Kind: "input", Req: r.Req, Params: M{"exact_capacity": false, "name": r.Name, "phase": "baseline"}})
 		out := Decide(J(r.Req), nil)
 		base[i] = "rejected"
 		if out.Accepted {
